@@ -348,7 +348,7 @@ pub fn honest_swarm(seed: u64) -> Plan {
             peer.bitfield = BitfieldMode::AsHaves;
         }
         // Have-driven growth: start without some pieces, gain them early
-        if r.chance(1, 4) {
+        if r.chance(1, 3) {
             for i in 0..n {
                 if peer.has[i] && r.chance(1, 3) {
                     peer.has[i] = false;
@@ -358,6 +358,13 @@ pub fn honest_swarm(seed: u64) -> Plan {
         }
         if r.chance(1, 4) {
             honest_flaps(&mut r, &mut peer, true);
+        }
+        // essential peers may be leechers themselves: interested in us, asking for what we own
+        if r.chance(1, 3) {
+            peer.script.push(step(When::At(r.range(0, 5_000)), Act::Send(Msg::Interested)));
+            for _ in 0..r.range(0, 3) {
+                peer.script.push(step(When::At(r.range(1_000, 60_000)), Act::RequestOwned(1)));
+            }
         }
         peer.essential = true;
         p.peers.push(peer);
@@ -414,6 +421,31 @@ pub fn honest_swarm(seed: u64) -> Plan {
         }
         p.peers.push(peer);
         k += 1;
+    }
+    // late sole source: one essential peer, interested in us from the start, obtains pieces
+    // nobody else has only after everything else it offered has been fetched from it
+    if r.chance(1, 5) {
+        let e = r.usize_below(n_ess);
+        let late: Vec<usize> = (0..n).filter(|_| r.chance(1, 4)).take(2).collect();
+        for i in &late {
+            for q in p.peers.iter_mut() {
+                q.has[*i] = false;
+                q.script.retain(|s| s.act != Act::Gain(*i as u32));
+            }
+        }
+        let peer = &mut p.peers[e];
+        peer.script.push(step(When::At(0), Act::Send(Msg::Interested)));
+        // and it stays chatty (legal repeats), so the inactivity rule never recycles the connection
+        if r.chance(2, 3) {
+            let mut t = r.range(30_000, 100_000);
+            while t < 3_600_000 {
+                peer.script.push(step(When::At(t), Act::Send(Msg::Interested)));
+                t += r.range(30_000, 110_000);
+            }
+        }
+        for i in &late {
+            peer.script.push(step(When::At(r.range(3_000, 45_000)), Act::Gain(*i as u32)));
+        }
     }
     // tracker lists the peers in a seeded order
     let mut names: Vec<String> = p.peers.iter().filter(|x| x.listed).map(|x| x.name.clone()).collect();
